@@ -15,7 +15,7 @@ RULE = (
     "a 2x2 (thorough: also 2x3) block layout, each in ascending and reversed input order, x data = distinct powers of two per point "
     "and component (1..3 components, so a reduced value identifies its member set) x weights {none, distinct per point and component} "
     "x reduction {mean, median, sum, min, max; weighted: np.average, weighted sum} x {spacing, shape} x region {given, inferred via "
-    "two pin points} x center_coordinates x drop_coords (extra coordinate = 10 x point id) x input 1-D / 2-D. quick crosses the full "
+    "two pin points} x center_coordinates x drop_coords (extra coordinate = 10 x point id) x input 1-D / 2-D C-ordered / 2-D Fortran-ordered or transposed view. quick crosses the full "
     "data-path axis with the default coordinate path and the full coordinate-path axis with two data paths; thorough crosses "
     "everything for the 2x2 layout. Non-trivial: a block with >= 2 members and >= 2 occupied blocks."
 )
@@ -36,7 +36,7 @@ def _configs(tier, full):
              [dict(red=r, ncomp=c, w=True) for r in RED_W for c in (1, 2, 3)]
     b_axis = [dict(block=bk, region=rg, center=ce, drop=dr, form=fm)
               for bk in ("spacing", "shape") for rg in ("given", "inferred") for ce in (False, True)
-              for dr in (True, False) for fm in ("1d", "2d")]
+              for dr in (True, False) for fm in ("1d", "2d", "2dF")]
     b0 = dict(block="spacing", region="given", center=False, drop=True, form="1d")
     if full:
         for a in a_axis:
@@ -118,9 +118,14 @@ def run(case, rec):
     extra = np.array([10.0 * p for p in range(npts)])
     form = case["form"]
     shp = (npts,)
-    if form == "2d":
+    if form in ("2d",):
         shp = (2, npts // 2) if npts % 2 == 0 and npts >= 2 else (1, npts)
-    rs = lambda a: a.reshape(shp)
+    if form == "2dF":
+        # same element sequence in C (row-major) reading order, but Fortran memory layout / a transposed view
+        shp = (2, npts // 2) if npts % 2 == 0 and npts >= 2 else (1, npts)
+        rs = lambda a: np.asfortranarray(a.reshape(shp)) if npts % 4 else np.ascontiguousarray(a.reshape(shp).T).T
+    else:
+        rs = lambda a: a.reshape(shp)
     coords = (rs(e), rs(n), rs(extra))
     kw = dict(center_coordinates=case["center"], drop_coords=case["drop"])
     if case["block"] == "spacing":
